@@ -1,5 +1,6 @@
 //! `rainverif <component> --tier quick|thorough --seed N --drv <raindrv> --out <file> [--replay-case "<line>"]`
 
+mod c04;
 mod c12;
 mod c13;
 mod c14;
@@ -33,6 +34,7 @@ fn main() {
     let corpus = arg(&args, "--corpus").unwrap_or_else(|| "/verif/corpus".into());
     let rep = match comp.as_str() {
         "c12" => c12::run(&tier, seed, &drv, replay.as_deref(), &format!("{corpus}/C12")),
+        "c04" => c04::run(&tier, seed, &drv, replay.as_deref(), &format!("{corpus}/C04")),
         "c13" => c13::run(&tier, seed, &drv, replay.as_deref(), &format!("{corpus}/C13")),
         "c14" => c14::run(&tier, seed, &drv, replay.as_deref(), &format!("{corpus}/C14")),
         "lsm" => {
